@@ -164,7 +164,7 @@ func runC10(c *core.Ctx) {
 			}
 		}
 		key := core.FuncKey(tc.fn)
-		for _, ci := range core.Calls(tc.fn) {
+		for _, ci := range core.CallsR(tc.fn) {
 			name, ok := assemblerCall(ci)
 			if !ok {
 				continue
@@ -218,59 +218,24 @@ func runC10(c *core.Ctx) {
 		name, _ := assemblerCall(h.ci)
 		ck := fmt.Sprintf("%s#hint:%s", core.FuncKey(tc.fn), name)
 		v := h.ci.Common().Args[0]
-		type inc struct {
-			val  ssa.Value
-			blk  *ssa.BasicBlock // block at whose end the value is live on the way to the call
-			edge *core.Edge
-		}
-		var incoming []inc
-		if phi, ok := v.(*ssa.Phi); ok {
-			for i, e := range phi.Edges {
-				pb := phi.Block().Preds[i]
-				var ed *core.Edge
-				for si, s := range pb.Succs {
-					if s == phi.Block() {
-						ed = &core.Edge{From: pb, Succ: si}
-					}
-				}
-				incoming = append(incoming, inc{e, pb, ed})
-			}
-		} else {
-			incoming = append(incoming, inc{v, h.ci.Block(), nil})
+		rg := core.RegionOf(tc.fn)
+		fromToken := func(x ssa.Value) bool { return tc.derivesFromField(x, "Length", "Int", "Uint", "Str", "Bytes") }
+		// clamp: an edge on which the value is <= something that does not come from the token
+		clampEdges := func(x ssa.Value) map[core.Edge]bool {
+			return core.EdgesWhere(tc.fn, func(r core.Rel) bool { return r.ImpliesLE() && r.X == x && !fromToken(r.Y) })
 		}
 		ok := true
 		why := ""
-		for _, in := range incoming {
-			if core.ConstVal(in.val) != nil {
-				continue
-			}
-			if !tc.derivesFromField(in.val, "Length", "Int", "Uint", "Str", "Bytes") {
-				continue // the cap itself / configuration
-			}
-			// need a bounding edge dominating in.blk (or being the incoming edge)
-			bounded := false
-			for e := range core.EdgesWhere(tc.fn, func(r core.Rel) bool {
-				return r.ImpliesLE() && r.X == in.val && !tc.derivesFromField(r.Y, "Length", "Int", "Uint", "Str", "Bytes")
-			}) {
-				if (in.edge != nil && e == *in.edge) || core.EdgeDominates(e, in.blk) {
-					bounded = true
-				}
-			}
-			if !bounded {
+		if !holdsAt(rg, v, h.ci.Block(), nil, fromToken, clampEdges, map[ssa.Value]bool{}) {
+			ok = false
+			why = "a token-derived size reaches the hint without an upper bound by the configured cap"
+		}
+		if budget != nil {
+			charged := chargedEdgesFor(tc, budget, func(x ssa.Value) bool { return tc.derivesFromField(x, "Length") })
+			chargeEdges := func(ssa.Value) map[core.Edge]bool { return charged }
+			if !holdsAt(rg, v, h.ci.Block(), nil, fromToken, chargeEdges, map[ssa.Value]bool{}) {
 				ok = false
-				why = "token-derived size " + in.val.Name() + " reaches the hint without an upper bound by the configured cap"
-			}
-			if budget != nil {
-				chargedFor := false
-				for e := range chargedEdgesFor(tc, budget, func(x ssa.Value) bool { return x == in.val || tc.derivesFromField(x, "Length") }) {
-					if core.EdgeDominates(e, in.blk) {
-						chargedFor = true
-					}
-				}
-				if !chargedFor {
-					ok = false
-					why = "token-derived size " + in.val.Name() + " was not charged to the allocation budget"
-				}
+				why = "a token-derived size was not charged to the allocation budget"
 			}
 		}
 		c.Check(ok, ck, p.Pos(h.ci.Pos()), "size hint is constant, the cap, or a clamped and charged declared length", why)
@@ -469,13 +434,91 @@ func chargedEdges(tc *tokenConsumer, budget *ssa.Parameter, need []string) map[c
 	})
 }
 
+// holdsAt decides a "guarded by a dominating test" property of a value structurally, so that it does not matter whether
+// the test is written inline, on one arm of a clamp (a phi), or inside a helper that computes the value:
+//   - a value for which need() is false (constants, untainted values) holds trivially;
+//   - it holds at blk if an edge of `guards(v)` dominates blk (across helper boundaries) or is the edge `ed` over which
+//     the value arrives;
+//   - a phi holds if every operand holds at the end of its predecessor block (or arrives over a guarding edge);
+//   - a result of an expanded helper holds if, at every return of the helper, the returned value holds;
+//   - a numeric conversion holds if its operand does.
+func holdsAt(rg *core.Region, v ssa.Value, blk *ssa.BasicBlock, ed *core.Edge, need func(ssa.Value) bool, guards func(ssa.Value) map[core.Edge]bool, seen map[ssa.Value]bool) bool {
+	if v == nil || core.ConstVal(v) != nil || !need(v) {
+		return true
+	}
+	for e := range guards(v) {
+		if (ed != nil && e == *ed) || rg.EdgeDominates(e, blk) {
+			return true
+		}
+	}
+	if seen[v] {
+		return false
+	}
+	seen[v] = true
+	defer delete(seen, v)
+	switch x := v.(type) {
+	case *ssa.Phi:
+		for i, ev := range x.Edges {
+			pb := x.Block().Preds[i]
+			var ied *core.Edge
+			for si, s := range pb.Succs {
+				if s == x.Block() {
+					ied = &core.Edge{From: pb, Succ: si}
+				}
+			}
+			if !holdsAt(rg, ev, pb, ied, need, guards, seen) {
+				return false
+			}
+		}
+		return true
+	case *ssa.Convert:
+		return holdsAt(rg, x.X, blk, ed, need, guards, seen)
+	case *ssa.ChangeType:
+		return holdsAt(rg, x.X, blk, ed, need, guards, seen)
+	case *ssa.Extract:
+		if cl, ok := x.Tuple.(*ssa.Call); ok {
+			if g := rg.HelperOf(cl); g != nil {
+				return helperResultHolds(rg, g, x.Index, need, guards, seen)
+			}
+		}
+	case *ssa.Call:
+		if g := rg.HelperOf(x); g != nil {
+			return helperResultHolds(rg, g, 0, need, guards, seen)
+		}
+	}
+	return false
+}
+
+func helperResultHolds(rg *core.Region, g *ssa.Function, idx int, need func(ssa.Value) bool, guards func(ssa.Value) map[core.Edge]bool, seen map[ssa.Value]bool) bool {
+	for _, ret := range core.Returns(g) {
+		if idx >= len(ret.Results) {
+			return false
+		}
+		// a return that reports failure hands out no usable value
+		if ei := core.ErrResultIndex(g); ei >= 0 && ei != idx && core.ResultNilness(ret, ei) == core.NonNil {
+			continue
+		}
+		for _, rv := range core.ResultValues(ret, idx) {
+			if core.IsZeroMarker(rv) {
+				continue
+			}
+			if !holdsAt(rg, rv, ret.Block(), nil, need, guards, seen) {
+				return false
+			}
+		}
+	}
+	return true
+}
+
 func chargedEdgesFor(tc *tokenConsumer, budget *ssa.Parameter, operandOK func(ssa.Value) bool) map[core.Edge]bool {
+	rg := core.RegionOf(tc.fn)
+	isBudget := func(a ssa.Value) bool { return a == ssa.Value(budget) || rg.Canon(a) == ssa.Value(budget) }
 	isBudgetLoad := func(v ssa.Value) bool {
 		u, ok := v.(*ssa.UnOp)
-		return ok && u.Op == token.MUL && u.X == ssa.Value(budget)
+		return ok && u.Op == token.MUL && isBudget(u.X)
 	}
 	out := map[core.Edge]bool{}
-	for _, b := range tc.fn.Blocks {
+	for _, b := range rg.Blocks() {
 		ifi := core.BlockIf(b)
 		if ifi == nil {
 			continue
@@ -483,7 +526,7 @@ func chargedEdgesFor(tc *tokenConsumer, budget *ssa.Parameter, operandOK func(ss
 		// find the decrement in this block: Store(budget, load(budget) - X) with no later store
 		var dec *ssa.BinOp
 		for _, in := range b.Instrs {
-			if st, ok := in.(*ssa.Store); ok && st.Addr == ssa.Value(budget) {
+			if st, ok := in.(*ssa.Store); ok && isBudget(st.Addr) {
 				dec = nil
 				if bo, ok := st.Val.(*ssa.BinOp); ok && bo.Op == token.SUB && isBudgetLoad(bo.X) {
 					dec = bo
@@ -806,11 +849,71 @@ func checkProgress(c *core.Ctx, rel string) {
 	}
 }
 
-// boundedLoop recognises `for i := ...; i < len(x) / const; i++` and range loops.
+// boundedLoop recognises counted loops: the loop is left through a comparison between an induction variable (a phi
+// whose value around the back edge is itself plus/minus a constant, or a range index) and a bound that the loop does
+// not move: a constant, len() of something, a value computed before the loop, or a load of a location that no
+// instruction of the loop stores to (for i := 0; i < st.n; i++ with st.n untouched in the body).
 func boundedLoop(blocks []*ssa.BasicBlock) bool {
 	inLoop := map[*ssa.BasicBlock]bool{}
 	for _, b := range blocks {
 		inLoop[b] = true
+	}
+	isInduction := func(v ssa.Value) bool {
+		phi, ok := v.(*ssa.Phi)
+		if !ok || !inLoop[phi.Block()] {
+			return false
+		}
+		for _, e := range phi.Edges {
+			if bo, ok := e.(*ssa.BinOp); ok && (bo.Op == token.ADD || bo.Op == token.SUB) {
+				if (bo.X == ssa.Value(phi) && core.ConstVal(bo.Y) != nil) || (bo.Y == ssa.Value(phi) && core.ConstVal(bo.X) != nil && bo.Op == token.ADD) {
+					return true
+				}
+			}
+		}
+		return false
+	}
+	storedInLoop := func(addr ssa.Value) bool {
+		fn := core.FieldName(addr)
+		stored := false
+		for _, b := range blocks {
+			for _, in := range b.Instrs {
+				switch x := in.(type) {
+				case *ssa.Store:
+					if x.Addr == addr || (fn != "" && core.FieldName(x.Addr) == fn) {
+						stored = true
+					}
+				case ssa.CallInstruction:
+					// a call inside the loop may write anything reachable: only locals that do not escape are safe
+					if _, isAlloc := rootOf(addr).(*ssa.Alloc); !isAlloc {
+						if _, isBuiltin := x.Common().Value.(*ssa.Builtin); !isBuiltin {
+							stored = true
+						}
+					}
+				}
+			}
+		}
+		return stored
+	}
+	unmoved := func(v ssa.Value) bool {
+		v = core.Strip(v)
+		if core.ConstVal(v) != nil {
+			return true
+		}
+		switch x := v.(type) {
+		case *ssa.Call:
+			if bi, ok := x.Call.Value.(*ssa.Builtin); ok && bi.Name() == "len" {
+				return true
+			}
+		case *ssa.UnOp:
+			if x.Op == token.MUL {
+				return !storedInLoop(x.X)
+			}
+		}
+		if in, ok := v.(ssa.Instruction); ok {
+			return !inLoop[in.Block()]
+		}
+		_, isParam := v.(*ssa.Parameter)
+		return isParam
 	}
 	for _, b := range blocks {
 		ifi := core.BlockIf(b)
@@ -830,14 +933,21 @@ func boundedLoop(blocks []*ssa.BasicBlock) bool {
 		if !px && !py {
 			continue
 		}
-		for _, side := range []ssa.Value{cmp.X, cmp.Y} {
-			if core.ConstVal(side) != nil {
+		for _, pair := range [][2]ssa.Value{{cmp.X, cmp.Y}, {cmp.Y, cmp.X}} {
+			ind, bound := pair[0], pair[1]
+			if _, isPhi := ind.(*ssa.Phi); !isPhi {
+				continue
+			}
+			if core.ConstVal(bound) != nil {
 				return true
 			}
-			if cv, ok := side.(*ssa.Call); ok {
+			if cv, ok := bound.(*ssa.Call); ok {
 				if bi, ok := cv.Call.Value.(*ssa.Builtin); ok && bi.Name() == "len" {
 					return true
 				}
+			}
+			if isInduction(ind) && unmoved(bound) {
+				return true
 			}
 		}
 	}
@@ -912,47 +1022,21 @@ func runC10Alloc(c *core.Ctx) {
 					c.OK(ck, p.Pos(in.Pos()), "size not derived from untrusted integers (len/Length of built values, constants, configuration)")
 					continue
 				}
-				// sanitizer: dominating edge bounding a tainted value of the chain by an untainted one
-				sanitized := false
-				for e := range core.EdgesWhere(fn, func(r core.Rel) bool {
-					if !r.ImpliesLE() || !sl[r.X] {
-						return false
-					}
-					if tx, _ := tainted(r.X); !tx {
-						return false
-					}
-					ty, _ := tainted(r.Y)
-					return !ty
-				}) {
-					if core.EdgeDominates(e, in.Block()) {
-						sanitized = true
-					}
-				}
-				// phi-clamp: every incoming edge bounded (handled by C10.prealloc for the decoder); accept phi whose tainted edges are each dominated by a bound
-				if !sanitized {
-					if phi, ok := sz.(*ssa.Phi); ok {
-						all := true
-						for i, ev := range phi.Edges {
-							if t, _ := tainted(ev); !t {
-								continue
-							}
-							pb := phi.Block().Preds[i]
-							okE := false
-							for e := range core.EdgesWhere(fn, func(r core.Rel) bool {
-								ty, _ := tainted(r.Y)
-								return r.ImpliesLE() && r.X == ev && !ty
-							}) {
-								if e.To() == phi.Block() && e.From == pb || core.EdgeDominates(e, pb) {
-									okE = true
-								}
-							}
-							if !okE {
-								all = false
-							}
+				// sanitizer: a comparison bounding the value (or a tainted value of its chain) by an untainted one, on every
+				// way the value can reach this point - dominating test, clamp arm, or inside the helper that computed it
+				rg := core.RegionOf(fn)
+				isTainted := func(x ssa.Value) bool { t, _ := tainted(x); return t }
+				boundEdges := func(x ssa.Value) map[core.Edge]bool {
+					xs, _ := x, sl
+					chain := core.BackSlice(xs, taintOpts)
+					return core.EdgesWhere(fn, func(r core.Rel) bool {
+						if !r.ImpliesLE() || !(r.X == x || chain[r.X]) {
+							return false
 						}
-						sanitized = all
-					}
+						return isTainted(r.X) && !isTainted(r.Y)
+					})
 				}
+				sanitized := holdsAt(rg, sz, in.Block(), nil, isTainted, boundEdges, map[ssa.Value]bool{})
 				c.Check(sanitized, ck, p.Pos(in.Pos()), "untrusted size bounded by a dominating comparison", "an integer taken from untrusted input reaches this allocation size without a dominating bound (a crafted value makes the allocation panic or exhaust memory)")
 			}
 		})
